@@ -163,6 +163,22 @@ func (e *enc) node(kind string, rng *rand.Rand) {
 		e.entry(mDir | 0700)
 		e.maybeXattr(rng)
 		e.goodbye()
+	case "dir-sub":
+		// a directory holding sub-directories whose names also exist outside (below /outside, /, /p, /p/q)
+		e.entry(mDir)
+		for _, n := range []string{"outside", "p", "sentinel-dir", "sub"} {
+			if rng.Intn(2) == 0 {
+				e.filename(n)
+				e.entry(mDir | 0700)
+				if rng.Intn(2) == 0 {
+					e.filename("sub")
+					e.entry(mDir | 0700)
+					e.goodbye()
+				}
+				e.goodbye()
+			}
+		}
+		e.goodbye()
 	case "symlink":
 		e.entry(mLnk)
 		e.maybeXattr(rng)
@@ -396,7 +412,7 @@ func build(rng *rand.Rand) ([]byte, string) {
 		name := []string{"a", "sentinel-dir", "x"}[rng.Intn(3)]
 		var chain []string
 		for k := 0; k < 2+rng.Intn(3); k++ {
-			kd := []string{"dir", "emptydir", "file", "symlink", "symlink-file", "device"}[rng.Intn(6)]
+			kd := []string{"dir", "dir-sub", "dir-sub", "emptydir", "file", "symlink", "symlink-file", "device"}[rng.Intn(8)]
 			chain = append(chain, kd)
 			e.filename(name)
 			switch kd {
